@@ -24,6 +24,7 @@ ALLOC = [["alloc_bytes", 2]]
 ALLOC_FREE = [["alloc_bytes", 2], ["free_last"]]
 DEALLOC = [["free_given", 2, 3, 0]]
 DEALLOC_ALLOC = [["free_given", 2, 3, 0], ["alloc_bytes", 4]]
+TOUCH_DEALLOC = [["touch_given", 2, 3], ["free_given", 2, 3, 0]]
 
 
 class Q:
@@ -90,10 +91,10 @@ def families():
     qs.append(Q("live_bump_vs_toprelease_none_sw3", ["C07"], "quick", "live", "None", "S_E", ALLOC_FREE, DEALLOC_ALLOC, [14, 14], 3, 1, n1=(1, 24)))
     qs.append(Q("live_bump_none_sw2", ["C07"], "thorough", "live", "None", "S_E", ALLOC_FREE, DEALLOC_ALLOC, [14, 14], 2, 1))
     # --- C12: happens-before between the previous owner, the arena's zeroing and the next owner
-    qs.append(Q("hb_dealloc_then_alloc_opt_sw2", ["C12"], "quick", "hb", "Optimistic", "S_HN", ALLOC_FREE, DEALLOC, [30, 14], 2, 2, n1=(1, 16)))
-    qs.append(Q("hb_toprelease_then_bump_none_sw2", ["C12"], "quick", "hb", "None", "S_E", ALLOC_FREE, DEALLOC, [14, 6], 2, 2, n1=(1, 24)))
-    qs.append(Q("hb_dealloc_then_alloc_pess_sw2", ["C12"], "thorough", "hb", "Pessimistic", "S_HN", ALLOC_FREE, DEALLOC, [30, 16], 2, 2, n1=(1, 16)))
-    qs.append(Q("hb_dealloc_then_alloc_opt_sw3", ["C12"], "thorough", "hb", "Optimistic", "S_HN", ALLOC_FREE, DEALLOC, [30, 16], 3, 1, n1=(1, 16), timeout=1800))
+    qs.append(Q("hb_dealloc_then_alloc_opt_sw2", ["C12"], "quick", "hb", "Optimistic", "S_HN", ALLOC_FREE, TOUCH_DEALLOC, [30, 15], 2, 2, n1=(1, 16)))
+    qs.append(Q("hb_toprelease_then_bump_none_sw2", ["C12"], "quick", "hb", "None", "S_E", ALLOC_FREE, TOUCH_DEALLOC, [14, 7], 2, 2, n1=(1, 24)))
+    qs.append(Q("hb_dealloc_then_alloc_pess_sw2", ["C12"], "thorough", "hb", "Pessimistic", "S_HN", ALLOC_FREE, TOUCH_DEALLOC, [30, 17], 2, 2, n1=(1, 16)))
+    qs.append(Q("hb_dealloc_then_alloc_opt_sw3", ["C12"], "thorough", "hb", "Optimistic", "S_HN", ALLOC_FREE, TOUCH_DEALLOC, [30, 17], 3, 1, n1=(1, 16), timeout=1800))
     # --- C06: crash of the victim at any step of its operation, reopen, one more operation by a fresh thread
     qs.append(Q("crash_in_alloc_opt", ["C06"], "quick", "crash", "Optimistic", "S_H", ALLOC, ALLOC, [22, 22], 1, 1, n1=(1, 16), role="crash_between_mark_and_unlink"))
     qs.append(Q("crash_in_dealloc_opt", ["C06"], "quick", "crash", "Optimistic", "S_H", DEALLOC, ALLOC, [14, 22], 1, 1, n1=(1, 16)))
@@ -183,6 +184,8 @@ def replay_input(cex, path, file_path=None):
                 acts.append("%s:%d" % (a[0], a[1]))
             elif a[0] == "free_given":
                 acts.append("free_given:%d:%d:%d" % (args[a[1] - 2], args[a[2] - 2], a[3]))
+            elif a[0] == "touch_given":
+                acts.append("touch_given:%d:%d" % (args[a[1] - 2], args[a[2] - 2]))
             elif a[0] == "discard":
                 acts.append("discard")
         L.append("prog %d %s" % (ti, " ".join(acts)))
